@@ -265,7 +265,7 @@ func TestC10(t *testing.T) {
 	col := evd.New("C10", cfg)
 	defer col.Flush()
 	scenarios := c10Scenarios()
-	variants := cfg.N(8, 48)
+	variants := cfg.N(8, 240)
 	idx := 0
 	var blocked, woken int64
 	orders := map[string]bool{}
